@@ -12,7 +12,7 @@ import io
 import json
 import random
 
-from vflib import core, drive, gen, refxml
+from vflib import core, drive, gen, refxml, clients
 
 PROP = 'C01'
 LEVEL = 'exploration'
@@ -48,6 +48,17 @@ def make_protocols(kind, validator):
 def universe(seed, uid, opts=None):
     rng = core.rng_for(seed, PROP, 'uni%d' % uid)
     return gen.rand_universe(rng, opts or gen.Opts(), uid=uid)
+
+
+def universe_h(seed, uid):
+    """universes whose methods declare SOAP request/response headers (one or two classes per direction)"""
+    rng = core.rng_for(seed, PROP, 'unih%d' % uid)
+    ir = gen.rand_universe(rng, gen.Opts(headers=True, multi_headers=True, methods=(2, 3), services=(1, 1)), uid=uid)
+    for sd in ir['services']:
+        for md in sd['methods']:
+            md.pop('throws', None)
+    ir.pop('faults', None)
+    return ir
 
 
 class Ctx(object):
@@ -104,12 +115,34 @@ def run_call(R, C, md, args, rets, driver, rng, repro):
                     str(C.schema_validator.error_log.last_error)[:200], refxml.etree.tostring(body_el)[:300]))
             return
         R.count('requests_schema_valid')
+    hin, hout, hin_names, hout_names = [], [], [], []
     if kind == 'xml':
         data = W.serialize(body_el)
     else:
-        data = W.serialize(W.envelope(body_el, 11 if kind == 'soap11' else 12))
+        hin_names, hout_names = gen.header_names(md, 'in_header'), gen.header_names(md, 'out_header')
+        tds = {t['name']: t for t in ir['types']}
+        hels = []
+        try:
+            for h in hin_names:
+                v = gen.gen_value(rng, ir, {'ref': h}, top=True)
+                heq = refxml.Q(tds[h]['ns'], h)
+                if heq not in W.schema.elements:
+                    raise refxml.SchemaMismatch('header class %s has no global element' % h)
+                hel = refxml.etree.Element(heq, nsmap=W.nsmap)
+                W.codec.fill(hel, W.schema.elements[heq][0], {'ref': h}, v)
+                hin.append(v)
+                hels.append(hel)
+        except (refxml.NotConformant, refxml.SchemaMismatch) as e:
+            R.skip('header not expressible under the published schema: %s' % str(e)[:60])
+            return
+        hout = [gen.gen_value(rng, ir, {'ref': h}, top=True) for h in hout_names]
+        data = W.serialize(W.envelope(body_el, 11 if kind == 'soap11' else 12, hels))
     sp = [B.to_spyne(t, v) for t, v in zip(md['returns'], rets)]
     B.returns[md['name']] = sp[0] if len(sp) == 1 else (tuple(sp) if sp else None)
+    B.out_headers.pop(md['name'], None)
+    if hout:
+        oh = [B.to_spyne({'ref': h}, v) for h, v in zip(hout_names, hout)]
+        B.out_headers[md['name']] = oh[0] if len(oh) == 1 else oh
     B.calls[:] = []
     repro = dict(repro, method=md['name'], driver=driver, request_b64=base64.b64encode(data).decode())
     if driver == 'server':
@@ -155,6 +188,20 @@ def run_call(R, C, md, args, rets, driver, rng, repro):
             ok = False
             R.violation('argument %s differs: %s' % (an, '; '.join(d)[:300]), repro, mech='arg_differs:%s' % mech_diff(at, d), config=cfg,
                         tspec=at)
+    # request headers as user code reads them
+    if hin:
+        got_h = getattr(B.calls[0][2], 'in_header', None)
+        got_hs = list(got_h) if isinstance(got_h, (list, tuple)) else [got_h]
+        R.count('in_headers_compared')
+        if len(got_hs) != len(hin):
+            ok = False
+            R.violation('ctx.in_header holds %d objects, %d header elements were sent' % (len(got_hs), len(hin)), repro, mech='in_header_count', config=cfg)
+        else:
+            for h, sent, o in zip(hin_names, hin, got_hs):
+                d = []
+                if not gen.veq(ir, {'ref': h}, sent, B.from_spyne({'ref': h}, o), 'in_header.' + h, d):
+                    ok = False
+                    R.violation('request header %s differs: %s' % (h, '; '.join(d)[:300]), repro, mech='in_header_differs:%s' % mech_diff({'ref': h}, d), config=cfg)
     # response
     try:
         if kind == 'xml':
@@ -164,6 +211,26 @@ def run_call(R, C, md, args, rets, driver, rng, repro):
             if len(kids) != 1:
                 raise refxml.NotConformant('SOAP body has %d children' % len(kids))
             el = kids[0]
+            if hout:
+                R.count('out_headers_compared')
+                hk = [c for c in (header if header is not None else []) if isinstance(c.tag, str)]
+                tds = {t['name']: t for t in ir['types']}
+                for h, sent in zip(hout_names, hout):
+                    heq = refxml.Q(tds[h]['ns'], h)
+                    if heq not in W.schema.elements:
+                        R.skip('out header class has no global element in the published schema (C07 matter)')
+                        continue
+                    found = [c for c in hk if c.tag == heq]
+                    if len(found) != 1:
+                        ok = False
+                        R.violation('response carries %d %s header elements, the function set one' % (len(found), h),
+                                    dict(repro, response=out[:600].decode('utf8', 'replace')), mech='out_header_missing', config=cfg)
+                        continue
+                    d = []
+                    if not gen.veq(ir, {'ref': h}, sent, W.codec.dec_one(found[0], W.schema.elements[heq][0], {'ref': h}), 'out_header.' + h, d):
+                        ok = False
+                        R.violation('response header %s differs: %s' % (h, '; '.join(d)[:300]), dict(repro, response=out[:600].decode('utf8', 'replace')),
+                                    mech='out_header_differs:%s' % mech_diff({'ref': h}, d), config=cfg)
         if C.schema_validator is not None and md['returns']:
             R.count('responses_schema_checked')
         dec = W.decode_response_element(md, el)
@@ -186,7 +253,7 @@ def run_call(R, C, md, args, rets, driver, rng, repro):
         nn = any(a is not None for a in args) or any(r is not None for r in rets)
         if nn:
             R.nontrivial(cfg, md['style'], tuple(gen.shape(t) for _, t in md['args']), tuple(gen.shape(t) for t in md['returns']),
-                         tuple(gen.vclass(a) for a in args), tuple(gen.vclass(r) for r in rets))
+                         tuple(gen.vclass(a) for a in args), tuple(gen.vclass(r) for r in rets), len(hin), len(hout))
         R.cell(cfg)
         if len(R.samples) < 3 and nn:
             R.sample({'config': cfg, 'method': md, 'request': data.decode('utf8', 'replace')[:700], 'response': out.decode('utf8', 'replace')[:500]})
@@ -210,15 +277,86 @@ def mech_diff(t, diffs):
     return '%s:%s' % (gen.shape(t)[:30], cls)
 
 
-def run_universe(R, seed, uid, tier, only=None):
-    ir = universe(seed, uid)
-    rng = core.rng_for(seed, PROP, 'vals%d' % uid)
+def client_call(R, C, client, md, args, rets, repro):
+    """the spyne client library on the other side: natives in, natives out (wrapped call style, default names)"""
+    B, ir, kind = C.B, C.ir, C.kind
+    cfg = '%s|%s|client' % (kind, C.validator)
+    sargs = [B.to_spyne(t, v) for (_, t), v in zip(md['args'], args)]
+    sp = [B.to_spyne(t, v) for t, v in zip(md['returns'], rets)]
+    B.returns[md['name']] = sp[0] if len(sp) == 1 else (tuple(sp) if sp else None)
+    B.out_headers.pop(md['name'], None)
+    B.calls[:] = []
+    R.evaluations += 1
+    try:
+        res = getattr(client.service, md['name'])(*sargs)
+    except Exception as e:
+        from spyne import Fault
+        repro = dict(repro, client_request=(client.last_request or b'')[:1500].decode('utf8', 'replace'))
+        if isinstance(e, Fault):
+            R.violation('spyne client call answered with fault %s: %s' % (e.faultcode, str(e.faultstring)[:200]), repro,
+                        mech='client_fault_on_conformant:%s' % client_fault_mech(e.faultcode, e.faultstring), config=cfg)
+        else:
+            R.violation('spyne client call raised %s: %s' % (type(e).__name__, str(e)[:150]), repro,
+                        mech='client_escape:%s:%s' % (type(e).__name__, drive.innermost_spyne_frame(e)), config=cfg)
+        return
+    R.count('client_calls')
+    repro = dict(repro, client_request=(client.last_request or b'')[:1500].decode('utf8', 'replace'),
+                 client_response=(client.last_response or b'')[:1500].decode('utf8', 'replace'))
+    if not B.calls:
+        from vflib import miniapp
+        f = miniapp.decode_fault(kind, client.last_response or b'')
+        if f is not None:
+            # (the XmlDocument client does not turn a fault document into an exception)
+            R.violation('spyne client call answered with fault %s: %s' % (f[0], str(f[1])[:200]), repro,
+                        mech='client_fault_on_conformant:%s' % client_fault_mech(f[0], f[1]), config=cfg)
+            return
+    if [c[0] for c in B.calls] != [md['name']]:
+        R.violation('spyne client call entered %r' % [c[0] for c in B.calls], repro, mech='client_invocation_count', config=cfg)
+        return
+    ok = True
+    for (an, at), sent, o in zip(md['args'], args, B.calls[0][1]):
+        d = []
+        if not gen.veq(ir, at, sent, B.from_spyne(at, o), an, d):
+            ok = False
+            R.violation('argument %s sent by the spyne client arrived differently: %s' % (an, '; '.join(d)[:300]), repro,
+                        mech='client_arg_differs:%s' % mech_diff(at, d), config=cfg)
+    rts = md['returns']
+    if len(rts) == 1:
+        got = [res]
+    elif len(rts) == 0:
+        got = []
+    else:
+        got = list(res) if isinstance(res, (list, tuple)) else [getattr(res, n, None) for n in
+                                                               (md.get('out_variable_names') or ['%sResult%d' % (md['name'], i) for i in range(len(rts))])]
+    for i, (rt, sent, o) in enumerate(zip(rts, rets, got)):
+        d = []
+        if not gen.veq(ir, rt, sent, B.from_spyne(rt, o), 'ret%d' % i, d):
+            ok = False
+            R.violation('return value %d decoded by the spyne client differs: %s' % (i, '; '.join(d)[:300]), repro,
+                        mech='client_ret_differs:%s' % mech_diff(rt, d), config=cfg)
+    if ok and (any(a is not None for a in args) or any(r is not None for r in rets)):
+        R.nontrivial(cfg, 'client', tuple(gen.shape(t) for _, t in md['args']), tuple(gen.shape(t) for t in rts),
+                     tuple(gen.vclass(a) for a in args), tuple(gen.vclass(r) for r in rets))
+        R.cell(cfg)
+
+
+def client_fault_mech(code, string):
+    import re
+    s = str(string)
+    if 'SchemaValidationError' in str(code) and re.search(r"'-?[0-9.]+E[+-]?[0-9]+' is not a valid value of the atomic type '", s):
+        return 'decimal_exponent_print'
+    return str(code).split(':')[-1]
+
+
+def run_universe(R, seed, uid, tier, only=None, headers=False):
+    ir = universe_h(seed, uid) if headers else universe(seed, uid)
+    rng = core.rng_for(seed, PROP, 'vals%d%s' % (uid, 'h' if headers else ''))
     ncalls = 3 if tier == 'quick' else 6
-    configs = [(k, v) for k in PROTOCOLS for v in VALIDATORS]
+    configs = [(k, v) for k in PROTOCOLS for v in VALIDATORS if not (headers and k == 'xml')]
     if tier == 'quick':
         # every universe sees every protocol and every validator, not the full product
         rng.shuffle(configs)
-        configs = configs[:5]
+        configs = configs[:2 if headers else 5]
     for kind, validator in configs:
         try:
             C = Ctx(ir, kind, validator, rng)
@@ -235,24 +373,43 @@ def run_universe(R, seed, uid, tier, only=None):
                 R.notes.append('construction rejected (seed %s uid %s): %r at %s' % (seed, uid, e, drive.innermost_spyne_frame(e)))
             continue
         R.count('apps_built')
+        client = None
+        if not headers:
+            try:
+                inp, outp = make_protocols(kind, None)
+                capp = C.B.app(inp, outp, name='Client%d' % ir['uid'])
+                ctype = 'application/soap+xml; charset=utf-8' if kind == 'soap12' else 'text/xml; charset=utf-8'
+                client = clients.make_loopback_client(capp, clients.wsgi_sender(C.get_wsgi(), ctype))
+            except Exception as e:
+                R.skip('loopback client not constructible: %s' % type(e).__name__)
         for sd in ir['services']:
             for md in sd['methods']:
+                if headers and not (md.get('in_header') or md.get('out_header')):
+                    continue
+                if client is not None and md['style'] == 'wrapped' and not md.get('operation_name'):
+                    for k in range(1 if tier == 'quick' else 3):
+                        args = [gen.gen_value(rng, ir, t) for _, t in md['args']]
+                        rets = [gen.gen_value(rng, ir, t) for t in md['returns']]
+                        client_call(R, C, client, md, args, rets, {'seed': seed, 'uid': uid, 'kind': kind, 'validator': validator, 'client_call': k,
+                                                                   'method': md['name'], 'headers': headers})
                 for k in range(ncalls):
                     args = [gen.gen_value(rng, ir, t, top=(md['style'] == 'bare')) for _, t in md['args']]
                     rets = [gen.gen_value(rng, ir, t, top=(md['style'] != 'wrapped')) for t in md['returns']]
                     driver = 'wsgi' if k == ncalls - 1 else 'server'
-                    repro = {'seed': seed, 'uid': uid, 'kind': kind, 'validator': validator, 'call': k}
+                    repro = {'seed': seed, 'uid': uid, 'kind': kind, 'validator': validator, 'call': k, 'headers': headers}
                     run_call(R, C, md, args, rets, driver, rng, repro)
 
 
 def run(spec, R):
     for uid in range(spec['first'], spec['first'] + spec['count']):
         run_universe(R, spec['seed'], uid, spec['tier'])
+        if uid % 2 == 0 or spec['tier'] != 'quick':
+            run_universe(R, spec['seed'], uid, spec['tier'], headers=True)
 
 
 def replay(v, R):
     c = v['repro']
-    run_universe(R, c['seed'], c['uid'], 'thorough')
+    run_universe(R, c['seed'], c['uid'], 'thorough', headers=bool(c.get('headers')))
     for x in R.violations[:10]:
         print('replayed:', x.get('mech'), x.get('what'))
 
